@@ -248,6 +248,46 @@ def native(spec):
     return False
 
 
+def serialisable(spec):
+    """JSON-native scalars inside any nesting of the containers the encoder turns into arrays / objects"""
+    if spec == 'none':
+        return True
+    t = spec[0]
+    if t in ('s', 'i', 'f', 'bool'):
+        return True
+    if t in ('list', 'tuple', 'set'):
+        return all(serialisable(v) for v in spec[1])
+    if t in ('dict', 'mapping'):
+        return all(serialisable(v) for _, v in spec[1])
+    return False
+
+
+def matches(spec, parsed):
+    """the parsed JSON has the structure of the value: sequences and sets are arrays (a set in any order), mappings objects"""
+    if spec == 'none':
+        return parsed is None
+    t = spec[0]
+    if t in ('s', 'i', 'f'):
+        return not isinstance(parsed, bool) and parsed == spec[1]
+    if t == 'bool':
+        return parsed is bool(spec[1])
+    if t in ('list', 'tuple'):
+        return isinstance(parsed, list) and len(parsed) == len(spec[1]) and all(matches(a, b2) for a, b2 in zip(spec[1], parsed))
+    if t == 'set':
+        if not isinstance(parsed, list) or len(parsed) != len(spec[1]):
+            return False
+        left = list(parsed)
+        for a in spec[1]:
+            hit = next((i for i, b2 in enumerate(left) if matches(a, b2)), None)
+            if hit is None:
+                return False
+            del left[hit]
+        return True
+    if t in ('dict', 'mapping'):
+        return isinstance(parsed, dict) and set(parsed) == set(k for k, _ in spec[1]) and all(matches(v, parsed[k]) for k, v in spec[1])
+    return True                           # dates, objects, generators: the model decides
+
+
 def native_value(spec):
     if spec == 'none':
         return None
@@ -278,7 +318,12 @@ def impl(case):
         app = Application([('/v', ep, renders[rq['render']])])
         holder['v'] = to_python(case['value'])
         headers = {} if rq['accept'] is None else {'Accept': rq['accept']}
-        r = wsgi.call(app, wsgi.environ('/v', query=rq['query'], headers=headers))
+        env = wsgi.environ('/v', query=rq['query'], headers=headers)
+        if rq.get('form') is not None:
+            # a form submission: what the form fields are called is the application's business, not the renderer's
+            env = wsgi.environ('/v', method='POST', query=rq['query'], headers=headers, body=rq['form'].encode('utf8'))
+            env['CONTENT_TYPE'] = 'application/x-www-form-urlencoded'
+        r = wsgi.call(app, env)
         best = None
         if rq['accept']:
             best = parse_accept_header(rq['accept'], MIMEAccept).best_match(['text/html', 'application/json'])
@@ -379,18 +424,22 @@ def oracle(case, obs):
                         return ('%s: expected JSON, got %s %s' % (what, o['ctype'], o['parse_error'] or ''), 'json')
                     if native(spec) and o['parsed'] != native_value(spec):
                         return ('%s: JSON parses to %r, the value is %r' % (what, o['parsed'], native_value(spec)), 'roundtrip')
+                    if not matches(spec, o['parsed']):
+                        return ('%s: JSON parses to %r: sequences and sets must be arrays, mappings objects' % (what, o['parsed']), 'structure')
         elif isinstance(spec, list) and spec[0] == 'oddkeys':
             continue                  # the JSON renderers' clauses are about JSON-native data (string keys)
         else:
             dev = rq['render'] != 'json'
             is_native = native(spec)
-            if is_native or dev:
+            if is_native or dev or serialisable(spec):
                 if o['exc'] or o['status'] != 200:
                     return ('%s: status %s %s' % (what, o['status'], o['exc'] or ''), 'json-not-200')
                 if o['parse_error']:
                     return ('%s: invalid JSON: %s' % (what, o['parse_error']), 'invalid-json')
                 if is_native and o['parsed'] != native_value(spec):
                     return ('%s: JSON parses to %r, the value is %r' % (what, o['parsed'], native_value(spec)), 'roundtrip')
+                if not matches(spec, o['parsed']):
+                    return ('%s: JSON parses to %r: sequences and sets must be arrays, mappings objects' % (what, o['parsed']), 'structure')
     return None
 
 
@@ -404,6 +453,8 @@ def gen_case(rng, tier):
         if render == 'jsonp':
             q = rng.choice(['callback=cb', 'callback=my.fn', ''])
         reqs.append({'render': render, 'query': q, 'accept': rng.choice(ACCEPTS)})
+        if rng.random() < 0.2:
+            reqs[-1]['form'] = rng.choice(['format=csv', 'format=html', 'format=json&x=1', 'callback=evil', 'name=x&format=xml'])
     doc = rng.choice([None, None, 'List all the things.', 'First line.\n\n    Indented details\n    of the endpoint.\n', '',
                       '   ', 'Ends with a newline\n', '<b>markup</b> & "quotes" in one line', '\n  starts with a newline'])
     return {'value': value, 'tabular': tab, 'requests': reqs, 'doc': doc}
@@ -423,6 +474,10 @@ def run(rep, b, tier, seed, only_cases=None):
         [{'value': ['oddkeys', k], 'tabular': False,
           'requests': [{'render': 'basic', 'query': q, 'accept': a} for q in ('', 'format=json') for a in (None, 'application/json', '*/*', 'text/html')]}
          for k in ('int', 'float', 'bool', 'none', 'tuple', 'mixed', 'mixed_nested', 'bytes')] + \
+        [{'value': v, 'tabular': False, 'requests': [{'render': r, 'query': 'callback=cb' if r == 'jsonp' else '', 'accept': None}
+                                                     for r in ('basic', 'json', 'json_dev', 'json_stream', 'jsonp')]}
+         for v in (['set', [['s', 'draft'], ['i', 3]]], ['set', [['s', 'a'], ['s', 'b'], ['bool', True]]], ['set', [['i', 7], ['s', '']]],
+                   ['dict', [['tags', ['set', [['s', 'x'], ['i', 0]]]]]], ['list', [['set', [['s', 'é'], ['i', -1]]]]])] + \
         [gen_case(rng, tier) for _ in range(500 if tier == 'quick' else 5000)]
     rep.rule = ('renderlab: endpoints with 8 docstring shapes (none, one line, multi-line, empty, blank, markup); endpoint results from {str, bytes (%d texts: JSON-like, HTML-like incl. a 168-byte doctype boundary, plain, '
                 'empty, non-ASCII), int, float, bool, None, nested dict/list/tuple/set to depth 3, custom Mapping, datetime, objects with '
